@@ -340,7 +340,7 @@ impl Prop for C07 {
     }
 
     fn fuzz_targets(&self) -> Vec<(&'static str, u64)> {
-        vec![("fuzz_sorter", 40_000)]
+        vec![("fuzz_sorter", 5_000)]
     }
 
     fn run(&self, case: &Case, obs: &mut Obs) -> Check {
